@@ -53,6 +53,7 @@ fn main() {
         "record-corpus" => trainer_cases::record_corpus(&a),
         "record-mecab-lines" => trainer_cases::record_mecab_lines(&a),
         "record-train" => train::record(&a),
+        "record-mecab" => trainer_cases::record_mecab(&a),
         "record-dict" => dictops::record(&a),
         "replay-dict" => dictops::replay(&a),
         _ => {
